@@ -46,15 +46,19 @@ def main() -> int:
         sys.stdout.flush()
         os._exit(0)
     else:
+        # the documented way to switch the cache on: CHAMELEON_CACHE in the
+        # environment before chameleon is imported; no loader= argument
+        os.environ["CHAMELEON_CACHE"] = arg["dir"]
         from chameleon.zpt import template as zt
-        from chameleon.loader import ModuleLoader
+        from chameleon import config
+        assert config.CACHE_DIRECTORY == os.path.abspath(arg["dir"])
         chk.zt = zt
         chk._ensure_alt()
 
         class W:            # just enough of a World for build()
             def __init__(self, root): self.root = root
             def path(self, *p): return os.path.join(self.root, *p)
-        r = chk._attempt(arg["spec"], ModuleLoader(arg["dir"]), W(arg["root"]))
+        r = chk._attempt(arg["spec"], None, W(arg["root"]))
         print("CHILD " + json.dumps({"outcome": r[:3]}))
         return 0
 
